@@ -120,6 +120,21 @@ def _work(res, p):
         u3 = U3GateToRotation()
         if any(u3.predicate(op) for op in d.operations):
             probs.append("a U3 operation survived the U3 rule")
+    # the operation-level entry point takes any iterable of operations: a one-shot one (iterator, generator, map, reversed) must give
+    # what the list gives
+    from orquestra.quantum.decompositions import decompose_operations
+
+    try:
+        ref = list(decompose_operations(list(before), rules))
+        for nm, mk in (("iter", lambda: iter(list(before))), ("generator", lambda: (o for o in before)), ("map", lambda: map(lambda o: o, before)), ("reversed", lambda: reversed(list(reversed(before)))), ("tuple", lambda: tuple(before))):
+            got = list(decompose_operations(mk(), rules))
+            if got != ref:
+                probs.append(f"decompose_operations on a {nm} of the operations gives {len(got)} operations, on the list {len(ref)}")
+                break
+        if ref != list(d.operations):
+            probs.append("decompose_operations(list) differs from the circuit-level result")
+    except ImportError:
+        pass
     # rule order: applying the list equals applying the rules one after another
     step = c
     for r in rules:
@@ -194,7 +209,9 @@ def instances(tier, seed):
         for t in ([(2, 0, 1)] if tier == "quick" else [(0, 1, 2), (2, 0, 1), (1, 2, 0)]):
             add([(u + "|c2", t)], ["U3"], 3, "ctlz2 ")
     # ... and numeric, with angles outside [0, 2*pi) (negative, beyond one and two turns)
-    for th, ph in [(-1.3, 0.7), (7.0, -6.9), (2 * math.pi + 0.5, 3 * math.pi), (0.4, 0.9), (-4 * math.pi + 0.25, 13.0), (4.5 * math.pi, -0.1)]:
+    for th, ph in [(-1.3, 0.7), (7.0, -6.9), (2 * math.pi + 0.5, 3 * math.pi), (0.4, 0.9), (-4 * math.pi + 0.25, 13.0), (4.5 * math.pi, -0.1),
+                   # whole and half turns exactly (U3(2*pi, p, -p) = -I: a global phase alone, a relative phase under a control)
+                   (2 * math.pi, 0.7), (-2 * math.pi, 1.1), (6 * math.pi, -0.3), (4 * math.pi, 0.5), (math.pi, 0.25), (0.0, 0.9), (3 * math.pi, 0.0)]:
         add([(f"U3({th!r},{ph!r},{-ph!r})|c1", (1, 0)), ("RX(th0)", (1,))], ["U3"], 2, "numeric-ctl1 ")
         add([(f"U3({th!r},0.0,0.0)|c1", (0, 1)), ("RX(th0)", (0,))], ["U3"], 2, "numeric-ctl1 ")
         if tier == "thorough" or th < 0:
